@@ -83,6 +83,7 @@ def mon_c11(ops, obs, eng):
     view_before = {}     # addr -> view (struct) right before its last report
     prev = None
     fresh = None         # address whose report was the last command: its entries were created against the view we see next
+    multi = {}           # addr -> shards its last report listed more than once
     for oi, op in enumerate(ops):
         r = obs.get(oi)
         if r is None:
@@ -93,6 +94,11 @@ def mon_c11(ops, obs, eng):
             last_report[op[1]["addr"]] = op[1]["infos"]
             view_before[op[1]["addr"]] = prev["view"] if prev else {}
             fresh = op[1]["addr"]
+            # a report listing one shard several times (two replicas of a shard on one NodeHost - dragonboat makes that impossible;
+            # the shared view profile of C04/C05 does produce it) is judged entry by entry against a view that moves INSIDE the report:
+            # outside the hypothesis of C11_exact; the model comparison still covers it, the property-level clauses skip those shards
+            sh = [ci["shard"] for ci in op[1]["infos"]]
+            multi[op[1]["addr"]] = {x for x in sh if sh.count(x) > 1}
         elif op[0] in CMD:
             fresh = None
         elif op[0] == "LC" and not panicked(r):
@@ -101,6 +107,9 @@ def mon_c11(ops, obs, eng):
                 continue
             seen = set()
             for (s, rid, a) in c["kill"]:
+                if s in multi.get(a, ()):
+                    seen.add((s, rid, a))
+                    continue
                 sv = c["view"].get(s)
                 # judged when the entry is created; whether it can still name a member LATER (the view moved on while
                 # the host has not reported again) is the closed-loop statement C11_never_member (C01 check)
@@ -118,6 +127,8 @@ def mon_c11(ops, obs, eng):
             for a, infos in last_report.items():
                 vb = view_before.get(a, {})
                 for ci in infos:
+                    if ci["shard"] in multi.get(a, ()):
+                        continue
                     sv = vb.get(ci["shard"])
                     if sv is None or not sv["reps"] or sv["cci"] == 0:
                         continue
@@ -167,5 +178,17 @@ def run(ck):
         traces.append(dbgen.gen_view_trace(ck.rng, length=ck.rng.randint(10, 30), queries="sparse"))
     if not ok:
         return
-    dbprops.run_db_property(ck, eng, traces, [mon_c11], with_replicas=False, nontrivial=nontrivial)
+    # batches of 1000 traces keep each generated .v file small (a single 18000-trace batch got a coqc killed for memory)
+    total = dict(traces_validated_against_impl=0, ops_total=0, panic_observations=0)
+    hist = {}
+    for lo in range(0, len(traces), 1000):
+        dbprops.run_db_property(ck, eng, traces[lo:lo + 1000], [mon_c11], with_replicas=False, nontrivial=nontrivial)
+        for k in total:
+            total[k] += ck.cov.get(k, 0)
+        for k, v in ck.cov.get("op_histogram", {}).items():
+            hist[k] = hist.get(k, 0) + v
+        if ck.violations:
+            break
+    ck.cov.update(total)
+    ck.cov["op_histogram"] = hist
     ck.sample({"trace": dbengine.trace_to_json(traces[1][:10])})
